@@ -756,6 +756,43 @@ def reject_cases():
 
 
 LITERALS = [
+    # one file named twice in a files-condition, with two spellings of its name: every condition written for the file
+    # must hold (whether the two spellings count as "a single file name" whose matchers are AND-ed, or as two
+    # conditions, the verdict is the same: a later entry never replaces an earlier one)
+    {'name': 'one-file-two-spellings', 'expect': 'PASS', 'act': None,
+     'text': '''[setup]
+dir d = {
+    file a
+    dir s = {
+        file f
+    }
+}
+[act]
+$ true
+[assert]
+dir-contents d : ! matches {
+    a : type dir
+    ./a : type file
+}
+dir-contents d : ! matches {
+    ./a : type file
+    a : type dir
+}
+dir-contents d : -recursive ! matches {
+    s/f : type dir
+    s//f : type file
+}
+dir-contents d : -recursive ! matches {
+    s/f : type file
+    ./s/f : type dir
+}
+dir-contents d : -recursive matches {
+    a : type file
+    ./a : ! type dir
+    s//f
+    s/f : type file
+}
+'''},
     {'name': 'symbols', 'expect': 'PASS', 'act': {'d': ('d',), 'd/a': ('f', 'x'), 'd/s': ('d',), 'd/s/b': ('f', '')},
      'text': '''[setup]
 def files-source FS = { file b }
